@@ -4,6 +4,7 @@ Only the property text and a scratch worktree path go in; nothing from /verif.""
 import json, sys
 pid = sys.argv[1]
 wt = sys.argv[2]
+EXTRA = sys.argv[3] if len(sys.argv) > 3 else ''
 p = [json.loads(l) for l in open('/verif/properties.jsonl') if json.loads(l)['id'] == pid][0]
 print(f"""You are working on a scratch git worktree of the Rust crate brave/adblock-rust at {wt} (already created, at the pinned commit). Work ONLY inside {wt}. Do not read or touch /repo or /verif, and do not use the network (the sandbox is offline; use `cargo ... --offline`).
 
@@ -15,7 +16,7 @@ Quantified over: {p['quantifier']['text']}
 Why the existing tests cannot settle it: {p['why_tests_cant']}
 Code the property is anchored in: {', '.join(p['anchors']['files'])}
 
-YOUR TASK: produce TWO different, independent, realistic changes ("seeded defects") to the library source under {wt}/src that each BREAK this property while the crate still compiles and the existing test suite still passes exactly as before. Each change should look like a plausible slip in a refactoring, optimisation or bug fix (a few lines), and should need something specific to manifest - a multi-step sequence of operations, an unusual input, a particular composition of the rule list, a particular state/history, or two cooperating sites that each look fine alone - rather than something that ordinary use (or the existing tests) would expose at once. Do not pick a behaviour that is ALREADY broken at the pinned commit: first confirm your demonstration passes on the unmodified tree. The two changes should break the property through different mechanisms / code sites.
+YOUR TASK: produce TWO different, independent, realistic changes ("seeded defects") to the library source under {wt}/src that each BREAK this property while the crate still compiles and the existing test suite still passes exactly as before. Each change should look like a plausible slip in a refactoring, optimisation or bug fix (a few lines), and should need something specific to manifest - a multi-step sequence of operations, an unusual input, a particular composition of the rule list, a particular state/history, or two cooperating sites that each look fine alone - rather than something that ordinary use (or the existing tests) would expose at once. Do not pick a behaviour that is ALREADY broken at the pinned commit: first confirm your demonstration passes on the unmodified tree. The two changes should break the property through different mechanisms / code sites. {EXTRA}
 
 For each change k in {{1,2}} deliver, under {wt}/seed/{pid}-k/ :
   - patch.diff   : `git diff` of the source change only (paths relative to the repo root, applies with `git apply` on the pinned commit; must touch only files under src/)
